@@ -5,7 +5,7 @@
    outside this list, binary operators and label matchers are covered by the differential harness only. *)
 From Coq Require Import String.
 From Coq Require Import QArith ZArith List Bool Sorted Permutation.
-From OG Require Import C18.Model C18.Model2 C18.ProofsA C18.ProofsB C18.ProofsC C18.ProofsD C18.ProofsE C18.ProofsF.
+From OG Require Import C18.Model C18.Model2 C18.Model3 C18.ProofsA C18.ProofsB C18.ProofsC C18.ProofsD C18.ProofsE C18.ProofsF C18.ProofsG.
 Import ListNotations.
 Open Scope Q_scope.
 
@@ -188,6 +188,63 @@ Example C18_example_groups :
      ([("__name__", "m"); ("instance", "a"); ("job", "y")]%string, 4)])
   = [[("job", "x")]; [("job", "y")]]%string.
 Proof. reflexivity. Qed.
+
+(* ---- binary operators and one-to-one vector matching ---- *)
+
+(* vector <op> scalar: arithmetic keeps every element and drops the metric name; a comparison filter returns a
+   sub-vector (labels incl. the name and the VECTOR's values untouched, also when the scalar is on the left); with
+   bool every element survives with value 0/1 and without the name *)
+Theorem C18_vector_scalar_arith_labels : forall op rb swap s v,
+  is_cmp op = false -> map fst (vs_binop op rb swap s v) = map (fun e => drop_name (fst e)) v.
+Proof. exact vs_arith_labels. Qed.
+Theorem C18_vector_scalar_filter_is_subvector : forall op swap s v, is_cmp op = true ->
+  vs_binop op false swap s v = filter (fun e => cmp op (if swap then s else snd e) (if swap then snd e else s)) v.
+Proof. exact vs_filter_is_subvector. Qed.
+Theorem C18_vector_scalar_bool : forall op swap s v, is_cmp op = true ->
+  vs_binop op true swap s v = map (fun e => (drop_name (fst e), b2q (cmp op (if swap then s else snd e) (if swap then snd e else s)))) v.
+Proof. exact vs_bool_labels_values. Qed.
+Print Assumptions C18_vector_scalar_filter_is_subvector.
+
+(* the result label set of a one-to-one vector operation (upstream resultMetric) *)
+Theorem C18_result_metric_labels : forall op rb m ls kv,
+  In kv (result_metric op rb m ls) <->
+  In kv ls /\ (drops_name op rb = true -> fst kv <> name_label) /\
+  (if vm_on m then In (fst kv) (vm_labels m) else ~ In (fst kv) (vm_labels m)).
+Proof. exact result_metric_labels. Qed.
+Theorem C18_result_metric_no_name : forall op rb m ls,
+  drops_name op rb = true -> ~ In name_label (map fst (result_metric op rb m ls)).
+Proof. exact result_metric_no_name. Qed.
+Theorem C18_result_metric_filter_keeps_labels : forall op ls,
+  is_cmp op = true -> result_metric op false {| vm_on := false; vm_labels := [] |} ls = ls.
+Proof. exact result_metric_filter_keeps_labels. Qed.
+Print Assumptions C18_result_metric_labels.
+
+(* one-to-one matching is a partial bijection on signatures, and the answer is one element per matched pair *)
+Theorem C18_one_to_one_partial_bijection : forall op rb m lhs rhs out,
+  is_cmp op && negb rb = false ->
+  vv_binop op rb m lhs rhs = Some out ->
+  (forall l r r', In r rhs -> In r' rhs -> sigf m l = sigf m r -> sigf m l = sigf m r' -> r = r') /\
+  (forall l l' r, In l lhs -> In l' lhs -> In r rhs -> sigf m l = sigf m r -> sigf m l' = sigf m r -> l = l') /\
+  out = map (pair_out op rb m rhs) (partnered m rhs lhs) /\
+  (forall l, In l (partnered m rhs lhs) <-> In l lhs /\ exists r, In r rhs /\ sigf m l = sigf m r).
+Proof. exact vv_one_to_one_partial_bijection. Qed.
+(* ... and never contains the same label set twice (filters included) *)
+Theorem C18_vector_binop_no_duplicate_series : forall op rb m lhs rhs out,
+  (vm_on m = true -> ~ In name_label (vm_labels m)) ->
+  vv_binop op rb m lhs rhs = Some out -> NoDup (map fst out).
+Proof. exact vv_binop_no_duplicate_series. Qed.
+Print Assumptions C18_one_to_one_partial_bijection.
+Print Assumptions C18_vector_binop_no_duplicate_series.
+
+Example C18_example_binops :
+  let a := [([("__name__", "m"); ("instance", "a"); ("job", "x")]%string, 6); ([("__name__", "m"); ("instance", "b"); ("job", "x")]%string, 2)] in
+  let b := [([("__name__", "n"); ("instance", "b"); ("job", "y")]%string, 4); ([("__name__", "n"); ("instance", "c"); ("job", "y")]%string, 5)] in
+  vs_binop OGt false true 3 a = [([("__name__", "m"); ("instance", "b"); ("job", "x")]%string, 2)] /\
+  vs_binop ODiv false false 4 a = [([("instance", "a"); ("job", "x")]%string, 6 / 4); ([("instance", "b"); ("job", "x")]%string, 2 / 4)] /\
+  vv_binop OSub false {| vm_on := true; vm_labels := ["instance"%string] |} a b = Some [([("instance", "b")]%string, 2 - 4)] /\
+  vv_binop OLt false {| vm_on := false; vm_labels := ["job"%string] |} a b = Some [([("__name__", "m"); ("instance", "b")]%string, 2)] /\
+  vv_binop OAdd false {| vm_on := true; vm_labels := ["job"%string] |} a a = None.
+Proof. vm_compute. repeat split. Qed.
 
 (* non-vacuity: the hypotheses are satisfiable and the functions compute the upstream values on a small counter
    with a reset (window [0, 60000], samples every 15 s: 10 20 5 15 25) *)
